@@ -798,6 +798,42 @@ var paths = []pathFn{
 		defer rows.Close()
 		return readAll(rows, 5+int(cs.Seed%3))
 	}},
+	// the last input is already in the target schema (no conversion), the
+	// earlier ones need one: the decision "some input is converted" must not
+	// depend on the order of the inputs
+	{"MergeRowGroups(schema), last input in the target schema", func(b *built, data []byte, cs *c12Case) ([]parquet.Row, error) {
+		f, err := openFile(data)
+		if err != nil {
+			return nil, err
+		}
+		tdata, err := writeFile(b.ts, b.want, -1, cs.Seed)
+		if err != nil {
+			return nil, fmt.Errorf("writing the expected rows with the target schema: %w", err)
+		}
+		tf, err := openFile(tdata)
+		if err != nil {
+			return nil, err
+		}
+		inputs := append(append([]parquet.RowGroup{}, f.RowGroups()...), tf.RowGroups()...)
+		m, err := parquet.MergeRowGroups(inputs, b.ts)
+		if err != nil {
+			return nil, err
+		}
+		rows := m.Rows()
+		defer rows.Close()
+		got, err := readAll(rows, 5+int(cs.Seed%3))
+		if err != nil {
+			return nil, err
+		}
+		n := len(b.want)
+		if len(got) != 2*n {
+			return nil, fmt.Errorf("%d rows merged from %d + %d", len(got), n, n)
+		}
+		if cl, what := compareRows(b, got[n:]); cl != "" {
+			return nil, fmt.Errorf("rows of the input that is already in the target schema: %s: %s", cl, what)
+		}
+		return got[:n], nil
+	}},
 }
 
 // columnChunkRows reads the column-chunk view of the converted row groups and
